@@ -42,6 +42,7 @@ func Run(o *drv.Out) {
 	corpusOversize(o)
 	corpusFullBlock(o)
 	corpusNonCanonical(o)
+	corpusCheckpointHeight(o)
 	nCases, nHeights := 5, 5
 	if o.Tier == "thorough" || o.Search {
 		nCases, nHeights = 14, 8
@@ -65,10 +66,7 @@ func proposeAndCommit(c *execdrv.Chain, A *node.Node, txs []node.MixTx) *height 
 	c.Hold = true
 	if !c.Validate(A, p) {
 		c.Release()
-		sig := "C11:honest-proposal-rejected"
-		if remainder > 0 {
-			sig += ":oversize-remainder"
-		}
+		sig := "C11:honest-proposal-rejected" + rejectionClass(A, p, remainder)
 		o.Fail(sig, fmt.Sprintf("height %d: the proposer rejects its own proposal (%d txs, %d valid transactions left in the mempool)", ht.h, p.NTx, remainder),
 			map[string]any{"case": o.CurCase(), "height": ht.h, "block": hex.EncodeToString(p.Block), "remainder": remainder})
 		return nil
@@ -111,6 +109,10 @@ func rejectionClass(nd *node.Node, p *execdrv.Proposal, remainder int) string {
 	if remainder > 0 {
 		return ":oversize-remainder"
 	}
+	if blk := new(lib.Block); lib.Unmarshal(p.Block, blk) == nil && blk.BlockHeader != nil && blk.BlockHeader.Height%100 == 0 {
+		// controller.CheckpointFrequency: the certificate results of these heights carry a checkpoint (height, block hash)
+		return ":checkpoint-height"
+	}
 	return ""
 }
 
@@ -118,10 +120,11 @@ func rejectionClass(nd *node.Node, p *execdrv.Proposal, remainder int) string {
 func replicate(c *execdrv.Chain, B *node.Node, ht *height, remainder bool) bool {
 	o := c.O
 	if !c.Validate(B, ht.p) {
-		sig := "C11:honest-proposal-rejected"
+		rem0 := 0
 		if remainder {
-			sig += ":oversize-remainder"
+			rem0 = 1
 		}
+		sig := "C11:honest-proposal-rejected" + rejectionClass(B, ht.p, rem0)
 		o.Fail(sig, fmt.Sprintf("height %d: node B holds the same prefix and rejects the honest proposal", ht.h),
 			map[string]any{"case": o.CurCase(), "height": ht.h, "block": hex.EncodeToString(ht.p.Block)})
 		return false
@@ -357,6 +360,59 @@ func mustLast(nd *node.Node) []byte {
 		return nil
 	}
 	return qc.Block
+}
+
+// corpusCheckpointHeight: every 100th height (controller.CheckpointFrequency) the certificate results
+// carry a checkpoint = (height, block hash). The leader builds a proposal in two steps — CheckMempool
+// caches block and results with a provisional header, ProduceProposal patches the header (last
+// certificate, VDF), re-hashes it and finalises the results — so the checkpoint must be taken from the
+// FINAL hash, or every replica recomputes other results and no proposal of that height is ever
+// accepted. The chain is driven honestly through heights 1..101 (201 in the thorough tier; 99 and 101
+// are the controls): A proposes, validates its own proposal and commits, B validates and commits,
+// and at the end a fresh node C replays the whole served chain.
+func corpusCheckpointHeight(o *drv.Out) {
+	o.Case("checkpoint-height")
+	rng := rand.New(rand.NewSource(52))
+	net := node.NewNetwork(13, 4, nil, 8)
+	defer net.Close()
+	c := execdrv.NewChain(o, net, rng, []int{16, 4})
+	A, B, C := c.NewNode("A", 0), c.NewNode("B", 1), c.NewNode("C", -1)
+	last := uint64(101)
+	if o.Tier == "thorough" || o.Search {
+		last = 201
+	}
+	var hs []*height
+	for A.Height() <= last {
+		h := A.Height()
+		var txs []node.MixTx
+		if h%10 == 0 || h%100 == 99 || h%100 == 1 {
+			txs = append(txs, node.MixTx{Kind: "send", Bytes: net.SendTx(net.AcctKeys[int(h)%8], net.FreshAddr(int(h)), 1000, 10000, h, "")})
+		}
+		ht := proposeAndCommit(c, A, txs)
+		if ht == nil || !replicate(c, B, ht, false) {
+			return
+		}
+		hs = append(hs, ht)
+		if h%100 == 0 {
+			qc, err := A.QCByHeight(h)
+			if err != nil || qc.Results == nil || qc.Results.Checkpoint == nil || !bytes.Equal(qc.Results.Checkpoint.BlockHash, qc.BlockHash) || qc.Results.Checkpoint.Height != h {
+				o.Fail("C11:honest-proposal-rejected:checkpoint-height", fmt.Sprintf("height %d: the archived certificate results carry no checkpoint for this block's final hash", h), map[string]any{"case": o.CurCase(), "height": h})
+				return
+			}
+			o.Count(fmt.Sprintf("checkpoint-height:%d:accepted-by-proposer-and-replica", h))
+		}
+	}
+	for _, ht := range hs {
+		if !serveAndSync(c, A, C, ht) {
+			return
+		}
+	}
+	if !execdrv.SameDump(A.StateDump(), C.StateDump()) {
+		o.Fail("C11:replay-diverges", "full state scans of A and the synced node differ after the checkpoint height", map[string]any{"case": o.CurCase()})
+		return
+	}
+	o.Nontrivial(o.CurCase())
+	o.Sample(fmt.Sprintf("checkpoint-height: heights 1..%d proposed, validated, committed and replayed on a fresh node; the checkpoint of height 100 is the block's final hash", last))
 }
 
 // corpusNonCanonical: suspected defect F2 (DESIGN §8), C11 view. A valid send is re-encoded without
